@@ -425,6 +425,7 @@ func (e *Engine) assumeChecked(st *State, c *Term) {
 		panic(pathDead{"assumption infeasible"})
 	}
 	st.Assume(c)
+	st.Assumed = append(st.Assumed, c)
 	if mT != nil {
 		st.Model = mT
 	}
@@ -438,7 +439,7 @@ func (e *Engine) feasT(st *State, c *Term) (bool, bool, Model, Model) {
 			return true, false, st.Model, nil
 		}
 	}
-	r, m := e.solver.CheckBase(st.PC, c, e.cfg.FeasTimeoutMs, true, st.Model)
+	r, m := e.solver.CheckBase(st.feasPC(), c, e.cfg.FeasTimeoutMs, true, st.Model)
 	switch r {
 	case Sat:
 		return true, false, m, nil
@@ -505,13 +506,41 @@ func (e *Engine) checkAssert(st *State, c *Term, label string) {
 		e.assumeChecked(st, c)
 		return
 	}
+	// The same assertion term met again on another path: try to show it valid
+	// under the harness assumptions alone (a subset of every path condition),
+	// once; success discharges it on every path with those assumptions.
+	key := fmt.Sprintf("%d|%d", c.ID, assumedKey(st.Assumed))
+	if v, ok := e.validCache[key]; ok {
+		if v {
+			e.res.AssertsByGlobal++
+			st.Assume(c)
+			st.addLemma(c)
+			st.Assumed = append(st.Assumed, c)
+			return
+		}
+	} else if e.assertSeen[c.ID] {
+		e.res.AssertQueries++
+		r, _ := e.solver.Check(st.Assumed, Not(c), e.cfg.AssertTimeout, false)
+		if r == Unknown && e.cfg.EscalateSec > 0 {
+			r, _, _ = e.solver.Escalate(st.Assumed, Not(c), e.cfg.EscalateSec, false, nil)
+		}
+		e.validCache[key] = r == Unsat
+		if r == Unsat {
+			e.res.AssertsProved++
+			st.Assume(c)
+			st.addLemma(c)
+			st.Assumed = append(st.Assumed, c)
+			return
+		}
+	}
+	e.assertSeen[c.ID] = true
 	e.res.AssertQueries++
 	r, m := e.solver.CheckBase(st.PC, Not(c), e.cfg.AssertTimeout, true, e.modelOf(st))
-	by := "z3-live"
+	by := "live"
 	if r == Unknown && e.cfg.EscalateSec > 0 {
 		r, m, by = e.solver.Escalate(st.PC, Not(c), e.cfg.EscalateSec, true, nil)
 	} else if r != Unknown && e.cfg.CrossCheck {
-		r2, _, by2 := e.solver.Escalate(st.PC, Not(c), e.cfg.EscalateSec, false, []string{"cvc5", "z3-new"})
+		r2, _, by2 := e.solver.Escalate(st.PC, Not(c), e.cfg.EscalateSec, false, []string{"cvc5", "z3-4.8.12"})
 		e.solver.Stats.CrossCheck++
 		if r2 != Unknown && r2 != r {
 			e.solver.Stats.Disagree = append(e.solver.Stats.Disagree, fmt.Sprintf("assert %q: %s=%v vs %s=%v", label, by, r, by2, r2))
@@ -521,7 +550,14 @@ func (e *Engine) checkAssert(st *State, c *Term, label string) {
 	switch r {
 	case Unsat:
 		e.res.AssertsProved++
-		st.addFact(c, true)
+		// a proved assertion is implied by the path condition: adding it keeps
+		// the path condition equivalent and lets later queries use it as a lemma
+		st.Assume(c)
+		st.addLemma(c)
+		if st.NBranch == 0 {
+			// proved from the harness assumptions alone
+			st.Assumed = append(st.Assumed, c)
+		}
 	case Sat:
 		viol := Violation{Kind: "assert", Label: label, Model: m, Case: e.cfg.Case}
 		e.res.addViolation(viol)
@@ -690,4 +726,13 @@ func nativeSortSlice(e *Engine, st *State, fn *ssa.Function, a []Value) Value {
 		return tailCall{Fn: FuncV{Fn: target}, Args: []Value{ls, BVC(64, uint64(n))}}
 	}
 	return tailCall{Fn: FuncV{Fn: target}, Args: []Value{ls, BVC(64, 0), BVC(64, uint64(n)), BVC(64, uint64(limit))}}
+}
+
+func assumedKey(a []*Term) uint64 {
+	h := uint64(1469598103934665603)
+	for _, t := range a {
+		h ^= uint64(t.ID)
+		h *= 1099511628211
+	}
+	return h
 }
